@@ -51,6 +51,7 @@ def one_program(seed, i, tier, res):
         add_destinations(dest)
         it = Interp()
         it.allow_defer = True
+        it.explicit_loggers = True
         try:
             forest = it.run(prog)
         finally:
